@@ -108,7 +108,7 @@ class _:
             exp = list(range(N))
         must_raise = (
             mode == "both"
-            or (mode == "dims" and any(d < 0 for d in sel))
+            or (mode == "dims" and any(d < 0 or d >= N for d in sel))
             or (mode == "excl" and any(d < 0 or d >= N for d in sel))
         )
         if not must_raise and M is not None:
@@ -122,8 +122,8 @@ class _:
             raise Fail("rejects-valid-request", f"{case}")
         if must_raise:
             raise Fail("accepts-invalid-request", f"{case} -> {sd}, {vi}")
-        if mode == "dims" and (any(d >= N for d in sel) or len(set(sel)) != len(sel)):
-            # out-of-range / repeated dims are C19's business (callers index with them)
+        if mode == "dims" and len(set(sel)) != len(sel):
+            # repeated dims are C19's business (callers index with them)
             return
         if list(sd) != exp:
             raise Fail("sdims", f"{case}: {list(sd)} != {exp}")
